@@ -115,14 +115,16 @@ class TextJudge(Judge):
             TextJudge._factory = None         # unknown internal state: rebuild
             raise
 
-    def frontend(self, specs, ctx, what):
+    def frontend(self, specs, ctx, what, real=False):
         from stone.frontend.frontend import specs_to_ir
         from stone.frontend.exception import InvalidSpec
         from stone.ir import Api
         paths = {p for p, _ in specs}
         try:
             try:
-                api = self._fast(list(specs))
+                # `real`: the unmodified entry point itself (the shortcut below repeats its loop over the files, so what
+                # that loop does with a text that holds no definition is only seen through the entry point)
+                api = specs_to_ir(list(specs)) if real else self._fast(list(specs))
             except InvalidSpec:
                 raise
             except Exception:
@@ -179,8 +181,15 @@ class TextJudge(Judge):
             if self.params.get('lexonly'):
                 return
             # (2) the whole frontend, bare and after a namespace header
-            self.frontend([('a.stone', text)], ctx, repr(text))
-            self.frontend([('a.stone', 'namespace nsa\n' + text)], ctx, repr('namespace nsa\n' + text))
+            # texts without any definition (comments, blank lines) and every seventh text go through the entry point itself,
+            # alone and next to an ordinary spec
+            nodef = not any(l.strip() and not l.strip().startswith('#') for l in text.split('\n'))
+            real = nodef or self.judged % 7 == 0
+            self.frontend([('a.stone', text)], ctx, repr(text), real=real)
+            if nodef:
+                self.frontend([('a.stone', text), ('b.stone', 'namespace nsb\n\nunion V\n    v\n')], ctx, repr(text) + ' + b.stone', real=True)
+                self.frontend([('b.stone', 'namespace nsb\n\nunion V\n    v\n'), ('a.stone', text)], ctx, 'b.stone + ' + repr(text), real=True)
+            self.frontend([('a.stone', 'namespace nsa\n' + text)], ctx, repr('namespace nsa\n' + text), real=real)
         else:
             toks = obj['toks'] if isinstance(obj['toks'], list) else []
             body = render_tokens(toks)
